@@ -11,6 +11,7 @@ import (
 	"math/rand"
 	"os"
 	"sort"
+	"sync"
 	"testing"
 
 	"github.com/golang/protobuf/proto"
@@ -25,6 +26,7 @@ import (
 // would receive them; it never commits, so Create returns its error and no
 // dataset (hence no partition raft group) is created.
 type scriptedGroup struct {
+	mu      *sync.Mutex // when set, proposals are applied one at a time (as a raft log applies them)
 	last    []byte
 	apply   bool // commit and apply every proposal at once (what a one-member membership group does)
 	process raft.ProcessFn
@@ -37,6 +39,10 @@ func (g *scriptedGroup) RegisterProcessSnapshotFn(raft.ProcessFn) error { return
 func (g *scriptedGroup) RegisterSnapshotFn(raft.SnapshotFn) error       { return nil }
 func (g *scriptedGroup) LeaderId() uint64                               { return 1 }
 func (g *scriptedGroup) Propose(ctx context.Context, data []byte) error {
+	if g.mu != nil {
+		g.mu.Lock()
+		defer g.mu.Unlock()
+	}
 	g.last = append([]byte(nil), data...)
 	if g.apply && g.process != nil {
 		return g.process(data)
@@ -139,6 +145,63 @@ func appliedCreates(rec *mon.Recorder, N int) {
 			rec.Violation("independence:create-repeats-the-previous-placement", fmt.Sprintf("N=%d R=%d P=%d: %.3f of creates repeat the placement of the create before, expected %.3f +- %.3f", N, R, P, rate, p, band), desc)
 		}
 		rec.Count("independence_tests", 1)
+	}
+	// several clients create datasets through this node at once (one handler goroutine each): every placement still
+	// has min(R, N) distinct members per partition
+	if N >= 2 {
+		members := map[uint64]bool{}
+		for i := 1; i <= N; i++ {
+			members[uint64(1000+i*7)] = true
+		}
+		var mu sync.Mutex
+		g.mu = &mu
+		rounds := rec.N(40, 200)
+		for round := 0; round < rounds; round++ {
+			var wg sync.WaitGroup
+			bad := make(chan string, 8)
+			for k := 0; k < 6; k++ {
+				wg.Add(1)
+				go func() {
+					defer wg.Done()
+					d, err := dm.Create(context.Background(), &pb.Dataset{Dimension: 4, PartitionCount: 16, ReplicationFactor: 8})
+					if err != nil || d == nil {
+						return
+					}
+					want := 8
+					if N < want {
+						want = N
+					}
+					for i, p := range d.Meta().GetPartitions() {
+						seen := map[uint64]bool{}
+						for _, id := range p.GetNodeIds() {
+							if seen[id] || !members[id] {
+								select {
+								case bad <- fmt.Sprintf("N=%d partition %d placed on %v", N, i, p.GetNodeIds()):
+								default:
+								}
+								return
+							}
+							seen[id] = true
+						}
+						if len(p.GetNodeIds()) != want {
+							select {
+							case bad <- fmt.Sprintf("N=%d partition %d placed on %v, want %d nodes", N, i, p.GetNodeIds(), want):
+							default:
+							}
+							return
+						}
+					}
+				}()
+			}
+			wg.Wait()
+			rec.Count("concurrent_creates_checked", 6)
+			select {
+			case what := <-bad:
+				rec.Violation("placement:duplicate-or-non-member:concurrent-creates", what, map[string]interface{}{"N": N, "seed": rec.Seed()})
+				return
+			default:
+			}
+		}
 	}
 }
 
